@@ -256,6 +256,7 @@ def run(r):
         exe_rel = r.cargo_build("c01", release=True)
         if exe_rel is not None:
             run_profile(r, exe_rel, "release", model_cache)
+    r.extra["first_model_disagreements"] = r.model_disagreements[:12]
     for name in unguarded_self:
         if name != "parse_if_cond":
             r.oracle_failure(f"parser call graph: {name} -> {name}", "unguarded self-recursion in the parser", f"callgraph:{name}:unguarded-self-recursion")
